@@ -76,10 +76,12 @@ package lintcmd
 import (
 	"encoding/json"
 	"fmt"
+	"maps"
 	"net/url"
 	"os"
 	"path/filepath"
 	"regexp"
+	"slices"
 	"strings"
 
 	"honnef.co/go/tools/analysis/lint"
@@ -317,10 +319,11 @@ func (o *sarifFormatter) Format(checks []*lint.Analyzer, diagnostics []diagnosti
 					},
 				})
 			}
-			for path, replacements := range changes {
+			// Emit the changes in a stable order, not in map iteration order.
+			for _, path := range slices.Sorted(maps.Keys(changes)) {
 				sfix.ArtifactChanges = append(sfix.ArtifactChanges, sarif.ArtifactChange{
 					ArtifactLocation: sarifArtifactLocation(path),
-					Replacements:     replacements,
+					Replacements:     changes[path],
 				})
 			}
 			r.Fixes = append(r.Fixes, sfix)
